@@ -61,11 +61,43 @@ type vC02Env struct {
 	evilKey  *rsa.PrivateKey
 	kfOK     jwt.Keyfunc
 	kfEmpty  jwt.Keyfunc
+	// sessions: a second key set B = {rsa-3}, A+B, and what /jwks/seq/<id> answers right now
+	rsaKey3 *rsa.PrivateKey
+	jwksB   []byte
+	jwksAB  []byte
+	kfB     jwt.Keyfunc
+	kfAB    jwt.Keyfunc
+	seq     map[string]string
+}
+
+func vC02KeySet(t *testing.T, keys map[string]any) ([]byte, jwt.Keyfunc) {
+	set := jwkset.NewMemoryStorage()
+	for kid, k := range keys {
+		jwk, err := jwkset.NewJWKFromKey(k, jwkset.JWKOptions{Metadata: jwkset.JWKMetadataOptions{KID: kid}})
+		if err != nil {
+			t.Fatal(err)
+		}
+		if err = set.KeyWrite(context.Background(), jwk); err != nil {
+			t.Fatal(err)
+		}
+	}
+	js, err := set.JSONPublic(context.Background())
+	if err != nil {
+		t.Fatal(err)
+	}
+	kf, err := keyfunc.NewJWKSetJSON(js)
+	if err != nil {
+		t.Fatal(err)
+	}
+	return js, kf.Keyfunc
 }
 
 func vC02Setup(t *testing.T) (*vC02Env, func()) {
-	e := &vC02Env{cases: map[string]*vC02AuthCase{}}
+	e := &vC02Env{cases: map[string]*vC02AuthCase{}, seq: map[string]string{}}
 	var err error
+	if e.rsaKey3, err = rsa.GenerateKey(rand.Reader, 1024); err != nil {
+		t.Fatal(err)
+	}
 	if e.rsaKey, err = rsa.GenerateKey(rand.Reader, 1024); err != nil {
 		t.Fatal(err)
 	}
@@ -99,7 +131,32 @@ func vC02Setup(t *testing.T) (*vC02Env, func()) {
 	}
 	e.kfEmpty = kf2.Keyfunc
 
+	e.jwksB, e.kfB = vC02KeySet(t, map[string]any{"rsa-3": e.rsaKey3})
+	e.jwksAB, e.kfAB = vC02KeySet(t, map[string]any{"rsa-1": e.rsaKey, "ec-1": e.ecKey, "rsa-3": e.rsaKey3})
+
 	mux := http.NewServeMux()
+	mux.HandleFunc("/jwks/seq/", func(w http.ResponseWriter, r *http.Request) {
+		e.mu.Lock()
+		state := e.seq[strings.TrimPrefix(r.URL.Path, "/jwks/seq/")]
+		e.mu.Unlock()
+		body := map[string][]byte{"A": e.jwksJSON, "B": e.jwksB, "AB": e.jwksAB}[state]
+		switch {
+		case body != nil:
+			w.Header().Set("Content-Type", "application/json")
+			w.Write(body)
+		case state == "closed": // the connection dies without an answer
+			if hj, ok := w.(http.Hijacker); ok {
+				if c, _, err2 := hj.Hijack(); err2 == nil {
+					c.Close()
+					return
+				}
+			}
+			w.WriteHeader(http.StatusInternalServerError)
+		default:
+			w.WriteHeader(http.StatusNotFound)
+			w.Write([]byte("<html>404 page not found</html>"))
+		}
+	})
 	mux.HandleFunc("/jwks/ok", func(w http.ResponseWriter, _ *http.Request) {
 		w.Header().Set("Content-Type", "application/json")
 		w.Write(e.jwksJSON)
@@ -651,6 +708,8 @@ func vC02AudClaim(shape string, cfg vC02JwtCfg) (set bool, val any, list []strin
 type vC02Force struct {
 	iss, aud  string // shape names
 	verifying bool   // a kind that verifies and a decodable permission claim: only iss/aud can cause a denial
+	kind      string // "time" scenarios: the token kind (and its offset), with a decodable permission claim
+	offset    time.Duration
 }
 
 // build one token of a kind; jwksHasKeys tells whether the served key set contains the good keys
@@ -698,7 +757,7 @@ func vC02MakeToken(r *vRand, e *vC02Env, cfg vC02JwtCfg, perms []conf.AuthIntern
 	// the permission claim
 	form := "array"
 	k := r.Intn(20)
-	if f.verifying {
+	if f.verifying || f.kind != "" {
 		k = r.Intn(15)
 	}
 	switch {
@@ -733,6 +792,9 @@ func vC02MakeToken(r *vRand, e *vC02Env, cfg vC02JwtCfg, perms []conf.AuthIntern
 	if f.verifying {
 		k = vPick(r, []int{0, 0, 0, 0, 0, 0, 15, 20, 26})
 	}
+	if f.kind != "" {
+		k = map[string]int{"good": 0, "iat-future": 15, "expired": 16, "not-yet-valid": 18, "no-exp": 20}[f.kind]
+	}
 	switch {
 	case k < 15:
 	case k < 16:
@@ -741,6 +803,9 @@ func vC02MakeToken(r *vRand, e *vC02Env, cfg vC02JwtCfg, perms []conf.AuthIntern
 	case k < 18:
 		kind = "expired"
 		d := vPick(r, []time.Duration{time.Hour, time.Hour, 59 * time.Second, 10 * time.Second, 2 * time.Second})
+		if f.offset != 0 {
+			d = f.offset
+		}
 		if d < time.Hour {
 			kind = "expired-recently"
 		}
@@ -749,6 +814,9 @@ func vC02MakeToken(r *vRand, e *vC02Env, cfg vC02JwtCfg, perms []conf.AuthIntern
 	case k < 20:
 		kind = "not-yet-valid"
 		d := vPick(r, []time.Duration{time.Hour, time.Hour, 90 * time.Second, 20 * time.Second})
+		if f.offset != 0 {
+			d = f.offset
+		}
 		if d < time.Hour {
 			kind = "not-yet-valid-soon"
 		}
@@ -852,32 +920,46 @@ func vC02MakeToken(r *vRand, e *vC02Env, cfg vC02JwtCfg, perms []conf.AuthIntern
 }
 
 // the "claims" scenarios: every cell is visited in turn, so that each run covers all of them
-type vC02Cell struct{ cfg, iss, aud, vary string }
+type vC02Cell struct {
+	cfg, iss, aud, vary string
+	kind                string // "time" cells: token kind and offset; iss/aud in order
+	offset              time.Duration
+}
 
 func vC02Cells() []vC02Cell {
 	var out []vC02Cell
 	okAud := []string{"match", "match-list1", "match-last", "match-first"}
 	for i, s := range vC02IssShapes { // both configured, aud in order, iss varies
-		out = append(out, vC02Cell{"iss+aud", s, okAud[i%len(okAud)], "iss=" + s})
+		out = append(out, vC02Cell{"iss+aud", s, okAud[i%len(okAud)], "iss=" + s, "", 0})
 	}
 	for _, s := range vC02AudShapes { // both configured, iss in order, aud varies
-		out = append(out, vC02Cell{"iss+aud", "match", s, "aud=" + s})
+		out = append(out, vC02Cell{"iss+aud", "match", s, "aud=" + s, "", 0})
 	}
-	out = append(out, vC02Cell{"iss+aud", "other", "other", "both=other"}, vC02Cell{"iss+aud", "absent", "absent", "both=absent"},
-		vC02Cell{"iss+aud", "crossed", "crossed", "both=crossed"})
+	out = append(out, vC02Cell{"iss+aud", "other", "other", "both=other", "", 0}, vC02Cell{"iss+aud", "absent", "absent", "both=absent", "", 0},
+		vC02Cell{"iss+aud", "crossed", "crossed", "both=crossed", "", 0})
 	anyAud := []string{"absent", "other", "match", "empty-string"}
 	for i, s := range vC02IssShapes { // issuer only
-		out = append(out, vC02Cell{"iss", s, anyAud[i%len(anyAud)], "iss=" + s})
+		out = append(out, vC02Cell{"iss", s, anyAud[i%len(anyAud)], "iss=" + s, "", 0})
 	}
 	for _, s := range []string{"absent", "other", "empty-list", "crossed"} { // ... where aud must not matter
-		out = append(out, vC02Cell{"iss", "match", s, "aud=" + s})
+		out = append(out, vC02Cell{"iss", "match", s, "aud=" + s, "", 0})
 	}
 	anyIss := []string{"absent", "other", "match", "empty"}
 	for i, s := range vC02AudShapes { // audience only
-		out = append(out, vC02Cell{"aud", anyIss[i%len(anyIss)], s, "aud=" + s})
+		out = append(out, vC02Cell{"aud", anyIss[i%len(anyIss)], s, "aud=" + s, "", 0})
 	}
 	for _, s := range []string{"absent", "other", "null", "crossed"} { // ... where iss must not matter
-		out = append(out, vC02Cell{"aud", s, "match", "iss=" + s})
+		out = append(out, vC02Cell{"aud", s, "match", "iss=" + s, "", 0})
+	}
+	// exp / nbf / iat: how far in the past or future, everything else in order
+	for _, tc := range []struct {
+		kind string
+		d    time.Duration
+	}{{"expired", 2 * time.Second}, {"expired", 10 * time.Second}, {"expired", 59 * time.Second}, {"expired", 5 * time.Minute}, {"expired", time.Hour},
+		{"expired", 30 * 24 * time.Hour}, {"not-yet-valid", 20 * time.Second}, {"not-yet-valid", 90 * time.Second}, {"not-yet-valid", 5 * time.Minute},
+		{"not-yet-valid", time.Hour}, {"iat-future", 0}, {"no-exp", 0}, {"good", 0}} {
+		out = append(out, vC02Cell{cfg: []string{"", "iss", "aud", "iss+aud"}[len(out)%4], iss: "match", aud: "match",
+			vary: "time=" + tc.kind + "-" + tc.d.String(), kind: tc.kind, offset: tc.d})
 	}
 	return out
 }
@@ -1006,6 +1088,9 @@ func TestVerifC02(t *testing.T) {
 			out.Case(cqApp("Http", vC02CoqPerms(ex), cqList(rx.items), q.coq(y), q.shape(y), q.realQuery(y), statusCoq, cqList(raws), cqList(fields), obs),
 				d, class, true)
 
+		case k == 19: // ---- jwt method, a session on one Manager (JWKS cache)
+			vC02RunSeq(r, e, out, strconv.Itoa(i), i/20)
+
 		default: // ---- jwt method
 			q := vC02RandReq(r)
 			cfg := vC02JwtCfg{claimKey: vPick(r, []string{"mediamtx_permissions", "perms", "my_permission_key"})}
@@ -1079,7 +1164,7 @@ func TestVerifC02(t *testing.T) {
 			}
 			var force vC02Force
 			if cell != nil {
-				force = vC02Force{iss: cell.iss, aud: cell.aud, verifying: true}
+				force = vC02Force{iss: cell.iss, aud: cell.aud, verifying: cell.kind == "", kind: cell.kind, offset: cell.offset}
 			}
 			tk := vC02MakeToken(r, e, cfg, perms, jwksKind == "ok", force)
 			known := []vC02Tok{tk}
@@ -1221,6 +1306,9 @@ func TestVerifC02(t *testing.T) {
 			}
 			if cell != nil {
 				class = "jwt-claims/" + cell.cfg + "/" + cell.vary + "/" + outcome
+				if cell.kind != "" {
+					class = "jwt-" + cell.vary + "/" + outcome
+				}
 				d["claimsScenario"] = map[string]any{"settings": cell.cfg, "iss": cell.iss, "aud": cell.aud}
 			}
 			out.Case(y.wrap(cqApp("Jwt", vC02CoqPerms(ex), cqList(rx.items), q.coq(y), q.shape(y), q.realQuery(y), inqCoq, cqBool(jwksKind == "ok" || jwksKind == "empty"),
@@ -1228,4 +1316,311 @@ func TestVerifC02(t *testing.T) {
 				d, class, true)
 		}
 	}
+}
+
+// ---- sessions: several Authenticate calls on ONE Manager while the JWKS server's answer changes -----------------
+
+// key ids: 1 = rsa-1, 2 = ec-1 (key set A), 3 = rsa-3 (key set B), 0 = the attacker's key; key set ids: 1 = A, 2 = B, 3 = A+B
+var vC02SeqSets = map[string]int{"A": 1, "B": 2, "AB": 3}
+var vC02SeqKeys = map[int][]int64{1: {1, 2}, 2: {3}, 3: {1, 2, 3}}
+
+// a token that is in order apart from the key it is signed with (and, sometimes, its iss/aud)
+func vC02SeqToken(r *vRand, e *vC02Env, cfg vC02JwtCfg, perms []conf.AuthInternalUserPermission, keyid int) vC02Tok {
+	now := time.Now()
+	sub := vPick(r, []string{"somebody", "alice", "svc-account-7"})
+	claims := jwt.MapClaims{"sub": sub, "exp": now.Add(time.Hour).Unix(), "jti": strconv.Itoa(r.Intn(1 << 20))}
+	issShape, audShape := "match", vPick(r, []string{"match", "match-last", "match-list1"})
+	if r.Chance(1, 6) {
+		issShape = vPick(r, []string{"absent", "other", "case", "crossed"})
+	}
+	if r.Chance(1, 6) {
+		audShape = vPick(r, []string{"absent", "other", "other-list", "crossed", "empty-string"})
+	}
+	tk := vC02Tok{sub: sub, perms: perms, has: true, valid: true}
+	if set, val, str, _ := vC02IssClaim(issShape, cfg); set {
+		claims["iss"] = val
+		tk.iss = str
+	}
+	if set, val, list, _ := vC02AudClaim(audShape, cfg); set {
+		claims["aud"] = val
+		tk.aud = list
+	}
+	tk.issOK = cfg.issuer == "" || tk.iss == cfg.issuer
+	tk.audOK = cfg.audience == ""
+	for _, a := range tk.aud {
+		tk.audOK = tk.audOK || a == cfg.audience
+	}
+	if r.Bool() {
+		claims[cfg.claimKey] = perms
+	} else {
+		b, _ := json.Marshal(perms)
+		claims[cfg.claimKey] = string(b)
+	}
+	method, key, kid := jwt.SigningMethod(jwt.SigningMethodRS256), any(e.rsaKey), "rsa-1"
+	switch keyid {
+	case 2:
+		method, key, kid = jwt.SigningMethodES256, e.ecKey, "ec-1"
+	case 3:
+		key, kid = e.rsaKey3, "rsa-3"
+	case 0:
+		key, kid = e.evilKey, vPick(r, []string{"rsa-1", "rsa-3"})
+	}
+	t := jwt.NewWithClaims(method, claims)
+	if !(keyid != 0 && r.Chance(1, 6)) { // sometimes no kid: the key function tries every key of the set
+		t.Header[jwkset.HeaderKID] = kid
+	}
+	s, err := t.SignedString(key)
+	if err != nil {
+		panic(err)
+	}
+	tk.s = s
+	tk.kind = "key" + strconv.Itoa(keyid) + "/iss=" + issShape + "/aud=" + audShape
+	return tk
+}
+
+type vC02SeqStep struct {
+	ev     string // "auth", "refresh", "expire"
+	server string // what the JWKS server answers at that moment: A, B, AB, garbage, closed
+	keyid  int    // auth: key of the presented token
+	excl   bool   // auth: aim the request at the exclude list
+}
+
+func vC02SeqScript(r *vRand, idx int) (string, []vC02SeqStep) {
+	au := func(server string, keyid int) vC02SeqStep { return vC02SeqStep{ev: "auth", server: server, keyid: keyid} }
+	inval := vC02SeqStep{ev: vPick(r, []string{"refresh", "refresh", "expire"})}
+	bad := vPick(r, []string{"garbage", "closed"})
+	a := vPick(r, []int{1, 2})
+	switch idx % 8 { // every script in turn; two of eight sessions are random
+	case 0: // rotation: the cached set is used until the refresh, the new one after it
+		return "rotation", []vC02SeqStep{au("A", a), au("B", a), au("B", 3), inval, au("B", a), au("B", 3)}
+	case 1: // the server fails after the refresh: no fallback to the old keys; recovery on the next call
+		return "fail-after-refresh", []vC02SeqStep{au("A", a), inval, au(bad, a), au(bad, a), au("A", a)}
+	case 2: // the server fails first
+		return "fail-first", []vC02SeqStep{au(bad, a), au("A", a), au(bad, a), inval, au(bad, a)}
+	case 3: // an excluded request does not fetch: the first fetch after the refresh sees A again
+		return "excluded-no-fetch", []vC02SeqStep{au("B", 3), inval, {ev: "auth", server: "AB", keyid: a, excl: true}, au("B", a), au("A", a), au("A", 3)}
+	case 4: // keys added
+		return "keys-added", []vC02SeqStep{au("A", 3), au("AB", 3), inval, au("AB", 3), au("A", a)}
+	case 5: // attacker key throughout
+		return "attacker", []vC02SeqStep{au("A", 0), inval, au("B", 0), inval, au(bad, 0), au("AB", 0)}
+	}
+	n := 3 + r.Intn(5)
+	var steps []vC02SeqStep
+	for i := 0; i < n; i++ {
+		switch k := r.Intn(10); {
+		case k < 7 || i == n-1:
+			st := au(vPick(r, []string{"A", "A", "B", "B", "AB", "garbage", "closed"}), vPick(r, []int{1, 2, 3, 3, 0}))
+			st.excl = r.Chance(1, 8)
+			steps = append(steps, st)
+		case k < 9:
+			steps = append(steps, vC02SeqStep{ev: "refresh"})
+		default:
+			steps = append(steps, vC02SeqStep{ev: "expire"})
+		}
+	}
+	return "random", steps
+}
+
+func vC02RunSeq(r *vRand, e *vC02Env, out *vOut, id string, idx int) {
+	cfg := vC02JwtCfg{claimKey: vPick(r, []string{"mediamtx_permissions", "perms"})}
+	cfgKind := vPick(r, []string{"", "iss", "aud", "iss+aud"})
+	if strings.Contains(cfgKind, "iss") {
+		cfg.issuer = vPick(r, vC02Issuers)
+	}
+	if strings.Contains(cfgKind, "aud") {
+		cfg.audience = vPick(r, vC02Audiences)
+	}
+	exPerm := conf.AuthInternalUserPermission{Action: conf.AuthActionPublish, Path: "excluded/path"}
+	ex := []conf.AuthInternalUserPermission{exPerm}
+	perm := conf.AuthInternalUserPermission{Action: vPick(r, []conf.AuthAction{conf.AuthActionRead, conf.AuthActionPlayback, conf.AuthActionAPI}), Path: ""}
+	if perm.Action != conf.AuthActionAPI && r.Bool() {
+		perm.Path = vPick(r, []string{"mypath", "cam/1", "teststream"})
+	}
+	perms := []conf.AuthInternalUserPermission{perm}
+	var inq *bool
+	if r.Bool() {
+		b := r.Bool()
+		inq = &b
+	}
+	name, script := vC02SeqScript(r, idx)
+	m := &Manager{Method: conf.AuthMethodJWT, JWTJWKS: e.base + "/jwks/seq/" + id, JWTClaimKey: cfg.claimKey, JWTExclude: ex,
+		JWTInHTTPQuery: inq, JWTIssuer: cfg.issuer, JWTAudience: cfg.audience, ReadTimeout: 5 * time.Second}
+
+	toks := map[int]vC02Tok{}
+	y := &vC02Syms{}
+	var known []vC02Tok
+	var knownKey []int
+	var reqs []*vC02Req
+	var obsL []string
+	var dsteps []any
+	pattern := ""
+	for _, st := range script {
+		switch st.ev {
+		case "refresh":
+			m.RefreshJWTJWKS()
+			reqs, obsL = append(reqs, nil), append(obsL, "")
+			dsteps = append(dsteps, map[string]any{"event": "RefreshJWTJWKS"})
+			pattern += "r"
+			continue
+		case "expire": // jwksRefreshPeriod passes
+			m.mutex.Lock()
+			m.jwksLastRefresh = time.Now().Add(-jwksRefreshPeriod - time.Second)
+			m.mutex.Unlock()
+			reqs, obsL = append(reqs, nil), append(obsL, "")
+			dsteps = append(dsteps, map[string]any{"event": "refresh period passes"})
+			pattern += "e"
+			continue
+		}
+		tk, ok := toks[st.keyid]
+		if !ok || r.Chance(1, 4) {
+			tk = vC02SeqToken(r, e, cfg, perms, st.keyid)
+			toks[st.keyid] = tk
+			known, knownKey = append(known, tk), append(knownKey, st.keyid)
+			y.add(tk.s)
+		}
+		q := vC02RandReq(r)
+		q.user, q.pass, q.token = "", "", ""
+		q.action, q.path = perm.Action, "mypath"
+		if perm.Path != "" {
+			q.path = perm.Path
+		}
+		if st.excl {
+			q.action, q.path = exPerm.Action, exPerm.Path
+		} else if r.Chance(1, 10) { // the claim does not grant this
+			q.action = conf.AuthActionPprof
+		}
+		switch r.Intn(3) {
+		case 0:
+			q.pass = tk.s
+		case 1:
+			q.proto = ProtocolRTSP
+			q.setPairs(r, append([][2]string{{"token", tk.s}}, q.pairs...))
+		default:
+			q.token = tk.s
+		}
+		e.mu.Lock()
+		e.seq[id] = st.server
+		e.mu.Unlock()
+		obs, outcome, user := vC02Observe(m, q.real())
+		reqs, obsL = append(reqs, q), append(obsL, obs)
+		dsteps = append(dsteps, map[string]any{"event": "Authenticate", "jwksServerAnswers": st.server, "tokenSignedWithKey": st.keyid,
+			"tokenKind": tk.kind, "aimedAtExcludeList": st.excl, "request": q.desc(), "result": map[string]any{"outcome": outcome, "user": user}})
+		pattern += strings.ToUpper(outcome[:1])
+	}
+	e.mu.Lock()
+	delete(e.seq, id)
+	e.mu.Unlock()
+
+	// oracle tables: every candidate token under every key set
+	var opts []jwt.ParserOption
+	if cfg.issuer != "" {
+		opts = append(opts, jwt.WithIssuer(cfg.issuer))
+	}
+	if cfg.audience != "" {
+		opts = append(opts, jwt.WithAudience(cfg.audience))
+	}
+	var rx vC02Rx
+	var parseT, decpT, decsT []string
+	seen := map[string]bool{}
+	seenRaw := map[string]bool{}
+	addDecp := func(path string, raw []byte) {
+		if seenRaw["p"+string(raw)] {
+			return
+		}
+		seenRaw["p"+string(raw)] = true
+		var ps []conf.AuthInternalUserPermission
+		if jsonwrapper.Unmarshal(raw, &ps) == nil {
+			decpT = append(decpT, cqPair(cqBytes(raw), cqOpt(true, vC02CoqPerms(ps))))
+		} else {
+			decpT = append(decpT, cqPair(cqBytes(raw), "None"))
+		}
+	}
+	for _, q := range reqs {
+		if q == nil {
+			continue
+		}
+		cands := []string{q.token, q.pass}
+		if v, err := url.ParseQuery(q.query); err == nil {
+			cands = append(cands, v["token"]...)
+			cands = append(cands, v["jwt"]...)
+		}
+		for _, c := range cands {
+			if c == "" || seen[c] {
+				continue
+			}
+			seen[c] = true
+			for _, ks := range []int{1, 2, 3} {
+				kf := map[int]jwt.Keyfunc{1: e.kfOK, 2: e.kfB, 3: e.kfAB}[ks]
+				key := cqPair(cqList([]string{cqZ(int64(ks))}), y.bytes(c))
+				rc := &jwt.RegisteredClaims{}
+				if _, err := jwt.ParseWithClaims(c, rc, kf); err != nil {
+					parseT = append(parseT, cqPair(key, "None"))
+					continue
+				}
+				claim := "None"
+				parts := strings.Split(c, ".")
+				if payload, err2 := base64.RawURLEncoding.DecodeString(parts[1]); err2 == nil {
+					var cm map[string]json.RawMessage
+					if json.Unmarshal(payload, &cm) == nil {
+						if raw, ok := cm[cfg.claimKey]; ok {
+							claim = cqOpt(true, cqBytes([]byte(raw)))
+							addDecp(q.path, raw)
+							var str string
+							if !seenRaw["s"+string(raw)] {
+								seenRaw["s"+string(raw)] = true
+								if json.Unmarshal(raw, &str) == nil {
+									decsT = append(decsT, cqPair(cqBytes([]byte(raw)), cqOpt(true, cqBytes(str))))
+									addDecp(q.path, []byte(str))
+								} else {
+									decsT = append(decsT, cqPair(cqBytes([]byte(raw)), "None"))
+								}
+							}
+						}
+					}
+				}
+				_, errOpts := jwt.ParseWithClaims(c, &jwt.RegisteredClaims{}, kf, opts...)
+				parseT = append(parseT, cqPair(key, cqOpt(true, cqApp("VC", cqBytes(rc.Subject), cqBytes(rc.Issuer),
+					cqListOf([]string(rc.Audience), func(a string) string { return cqBytes(a) }), claim, cqBool(errOpts == nil)))))
+			}
+		}
+	}
+	var steps []string
+	for i, st := range script {
+		switch st.ev {
+		case "refresh":
+			steps = append(steps, "SRefresh")
+		case "expire":
+			steps = append(steps, "SExpire")
+		default:
+			served := "None"
+			if ks, ok := vC02SeqSets[st.server]; ok {
+				served = cqOpt(true, cqZ(int64(ks)))
+			}
+			q := reqs[i]
+			steps = append(steps, cqApp("SAuth", served, q.coq(y), q.shape(y), q.realQuery(y), obsL[i]))
+		}
+	}
+	var ksT []string
+	for _, ks := range []int{1, 2, 3} {
+		ksT = append(ksT, cqPair(cqZ(int64(ks)), cqListOf(vC02SeqKeys[ks], func(k int64) string { return cqZ(k) })))
+	}
+	var knownT []string
+	var dknown []any
+	for i, kt := range known {
+		p := cqOpt(true, vC02CoqPerms(kt.perms))
+		knownT = append(knownT, cqPair(y.bytes(kt.s), cqPair(cqZ(int64(knownKey[i])), cqApp("TInfo", cqBool(kt.valid), cqBytes(kt.iss),
+			cqListOf(kt.aud, func(a string) string { return cqBytes(a) }), p, cqBytes(kt.sub)))))
+		dknown = append(dknown, map[string]any{"token": kt.s, "kind": kt.kind, "signedWithKey": knownKey[i], "iss": kt.iss, "aud": kt.aud,
+			"claimPermissions": kt.perms, "subject": kt.sub})
+	}
+	inqCoq := "None"
+	if inq != nil {
+		inqCoq = cqOpt(true, cqBool(*inq))
+	}
+	class := "jwt-session/" + name
+	d := map[string]any{"kind": "jwt-session", "outcomes": pattern, "script": name, "exclude": ex, "claimKey": cfg.claimKey, "issuer": cfg.issuer, "audience": cfg.audience,
+		"jwtInHTTPQuery": inq, "keySets": map[string]any{"A": "rsa-1 (key 1), ec-1 (key 2)", "B": "rsa-3 (key 3)", "AB": "all three"},
+		"tokens": dknown, "steps": dsteps}
+	out.Case(y.wrap(cqApp("JwtSeq", vC02CoqPerms(ex), cqList(rx.items), inqCoq, cqBytes(cfg.issuer), cqBytes(cfg.audience), cqList(ksT),
+		cqList(parseT), cqList(decpT), cqList(decsT), cqList(knownT), cqList(steps))), d, class, true)
 }
